@@ -202,6 +202,9 @@ pub struct Ctx {
     assumptions: Mutex<Vec<String>>,
     exhaustive: AtomicBool,
     inconclusive: Mutex<Vec<String>>,
+    /// shrink steps proptest may take after a failure (checks whose cases open sockets or start
+    /// processes keep this small: every step costs a connection / a process)
+    pub shrink_iters: AtomicU64,
     /// called by the progress watchdog before it gives up (a check may turn a hang into a violation)
     pub hang_hook: Mutex<Option<Box<dyn Fn() + Send + Sync>>>,
 }
@@ -231,6 +234,7 @@ impl Ctx {
             assumptions: Mutex::new(Vec::new()),
             exhaustive: AtomicBool::new(false),
             inconclusive: Mutex::new(Vec::new()),
+            shrink_iters: AtomicU64::new(20000),
             hang_hook: Mutex::new(None),
         }
     }
@@ -461,10 +465,14 @@ pub fn derive_seed(seed: u64, name: &str, shard: u64) -> [u8; 32] {
 }
 
 pub fn new_runner(seed: u64, name: &str, shard: u64, cases: u32) -> TestRunner {
+    new_runner_shrink(seed, name, shard, cases, 20000)
+}
+
+pub fn new_runner_shrink(seed: u64, name: &str, shard: u64, cases: u32, shrink_iters: u32) -> TestRunner {
     let cfg = Config {
         cases,
         failure_persistence: None,
-        max_shrink_iters: 20000,
+        max_shrink_iters: shrink_iters,
         max_shrink_time: 20_000,
         max_global_rejects: 1_000_000,
         max_local_rejects: 10_000_000,
@@ -498,7 +506,7 @@ where
             let to_json = &to_json;
             sc.spawn(move || {
                 let strat = make();
-                let mut runner = new_runner(ctx.seed, sub, shard as u64, cases_per_shard);
+                let mut runner = new_runner_shrink(ctx.seed, sub, shard as u64, cases_per_shard, ctx.shrink_iters.load(Ordering::Relaxed) as u32);
                 let failed = AtomicBool::new(false);
                 // the first failure as it was observed (before shrinking): when the verdict depends on
                 // what the process did before (state surviving between uses), the shrunk case passes
@@ -543,6 +551,12 @@ where
                     Err(TestError::Fail(_, minimal)) => {
                         let probe = Probe { ctx, counting: false };
                         let (f, case) = match catch(|| judge(&minimal, &probe)) {
+                            // the harness could not set the shrunk case up (ports exhausted by the
+                            // shrinking itself, ...): report the failure as it was first observed
+                            Ok(Err(f)) if f.sig.starts_with("infra/") => match first_failure.lock().unwrap().take() {
+                                Some((f0, case)) => (f0, case),
+                                None => (f, to_json(&minimal)),
+                            },
                             Ok(Err(f)) => (f, to_json(&minimal)),
                             Ok(Ok(())) => match first_failure.lock().unwrap().take() {
                                 // the judges are pure functions of the case and the library: a verdict that
